@@ -112,14 +112,59 @@ def resolve_func(name):
     raise ValueError('unknown function value ' + name)
 
 
+def _np_arr(x, np, dtype):
+    return np.asarray(x, dtype=dtype)
+
+
+def build_list_array(f, np):
+    """a real pyarrow ListArray from the model of its buffers (offset, length, bufs)"""
+    import pyarrow as pa
+    bufs = f['bufs']
+    levels = (len(bufs) - 2) // 2
+    values = pa.array(np.asarray(bufs[-1], dtype='float64'))
+    child = values
+    for k in range(levels - 1, 0, -1):
+        off = np.asarray(bufs[2 * k + 1], dtype='int64').astype('int32')
+        child = pa.ListArray.from_arrays(pa.array(off, type=pa.int32()), child)
+    off0 = np.asarray(bufs[1], dtype='int64').astype('int32')
+    valid = bufs[0]
+    vbuf = None
+    if valid is not None and len(valid):
+        vbuf = pa.py_buffer(np.asarray(valid, dtype='uint8').tobytes())
+    return pa.ListArray.from_buffers(pa.list_(child.type), int(f['length']), [vbuf, pa.py_buffer(off0.tobytes())],
+                                     offset=int(f['offset']), children=[child])
+
+
+class _Stub:
+    pass
+
+
 def build_record(v, np):
     cls = v['cls']
-    f = {k: decode(x, np) for k, x in v['fields'].items()}
+    f = {k: decode(x, np) for k, x in v['fields'].items() if x.get('k') not in ('other',)}
     if cls == '_NumbaRtree':
         from spatialpandas.spatialindex.rtree import _NumbaRtree
         return _NumbaRtree(np.ascontiguousarray(f['_bounds'], dtype='float64'),
                            np.ascontiguousarray(f['_keys'], dtype='int64'), int(f['_page_size']),
                            np.ascontiguousarray(f['_bounds_tree'], dtype='float64'))
+    if cls == 'ListArray':
+        return build_list_array(f, np)
+    if cls in ('LineArray', 'MultiPointArray', 'RingArray', 'PolygonArray', 'MultiLineArray', 'MultiPolygonArray'):
+        import spatialpandas.geometry as g
+        return getattr(g, cls)(f['listarray'])
+    if cls == 'slice':
+        return slice(f.get('start'), f.get('stop'), f.get('step'))
+    if cls in ('HilbertRtree', 'GeometryArrayTB'):
+        o = _Stub()
+        o.total_bounds = tuple(f.get('total_bounds', (float('nan'),) * 4))
+        return o
+    if cls == '_CoordinateIndexer':
+        from spatialpandas.geometry.base import _CoordinateIndexer
+        o = _CoordinateIndexer.__new__(_CoordinateIndexer)
+        o._sindex = f.get('_sindex')
+        o._obj = f.get('_obj')
+        o._parent = None
+        return o
     raise ValueError('cannot build record of class ' + cls)
 
 
